@@ -1,9 +1,9 @@
 """C13 -- see DESIGN.md; obligations + oracle sweep."""
 from .. import common as C, generic as G
 
-TRUSTED = ['Coq 8.16.1 kernel + vm_compute', 'translator/*.py', 'oracle harness harness/oracles/C13.py']
-PERRUN = []
-GEN = ('Gen_util',)
+TRUSTED = ['Coq 8.16.1 kernel + vm_compute', 'translator/fragments.py + translator/tables.py (the clip idioms and return sites regenerated from trust_region.py / util.py)', 'Coq Reals for the exact-arithmetic statements (rounding not modelled); OrdLaws/Flocq for the exact box statements', 'oracle harness harness/oracles/C13.py']
+PERRUN = ['Char_model.v', 'C15.v', 'C13.v']
+GEN = ('Gen_util', 'Gen_model', 'Gen_tables')
 LEVEL = 'other'
 EXPLANATION = 'obligations: translation of the anchored functions + theorems listed in coverage.theorems; the remaining clauses are validated by the oracle sweep only'
 
